@@ -161,7 +161,7 @@ class FuncFacts:
             pos = bool(lab) if lab in (True, False) else None
             if pos is None:
                 continue
-            atoms = atoms_of(tn.expr, pos)
+            atoms = self._expand_named_conditions(atoms_of(tn.expr, pos))
             if stable_only:
                 rebound = set()
                 for b in between:
@@ -171,6 +171,30 @@ class FuncFacts:
                 atoms = [a for a in atoms if not (self._atom_names(a) & rebound)]
             for a in atoms:
                 out.append(a + (t,))
+        return out
+
+    def _expand_named_conditions(self, atoms, depth=0):
+        """`ok = len(V) < 26 ... if ok:` -- a tested local name whose single definition is a condition contributes the atoms
+        of that condition (the operands of the condition must not be rebound anywhere in the function)"""
+        if depth > 2:
+            return atoms
+        out = []
+        for a in atoms:
+            if a[0] == 'truthy' and isinstance(a[1], str) and a[1].isidentifier():
+                defs = [st.value for st in walk_no_nested(self.f.node) if isinstance(st, ast.Assign) and len(st.targets) == 1 and isinstance(st.targets[0], ast.Name) and st.targets[0].id == a[1]]
+                params = {x.arg for x in self.f.node.args.args}
+                if len(defs) == 1 and a[1] not in params and isinstance(defs[0], (ast.Compare, ast.BoolOp)) or (len(defs) == 1 and isinstance(defs[0], ast.UnaryOp) and isinstance(defs[0].op, ast.Not)):
+                    operands = names_in(defs[0])
+                    rebinds = 0
+                    for st in walk_no_nested(self.f.node):
+                        if isinstance(st, (ast.Assign, ast.AugAssign, ast.For)):
+                            if assigned_names(st) & operands:
+                                rebinds += 1
+                    single = all(sum(1 for st in walk_no_nested(self.f.node) if isinstance(st, (ast.Assign, ast.AugAssign, ast.For, ast.AnnAssign)) and n in assigned_names(st)) <= 1 for n in operands)
+                    if single:
+                        out += self._expand_named_conditions(atoms_of(defs[0], a[3]), depth + 1)
+                        continue
+            out.append(a)
         return out
 
     @staticmethod
